@@ -81,6 +81,9 @@ func (r *VerifRig) HandleMsg(data []byte) error {
 	return r.S.msgHandler.HandleMsg(data, time.Now())
 }
 
+// VerifUpdateBlockHeader is what Server.eventLoop does with an UpdateExistedHeaderEvent.
+func (r *VerifRig) VerifUpdateBlockHeader(ev UpdateExistedHeaderEvent) { r.S.updateBlockHeader(ev) }
+
 // VerifAssembleCommit is the body of Server.commit up to (not including) inserter.Insert.
 func (r *VerifRig) VerifAssembleCommit(ev CommitEvent) (*types.Block, error) {
 	s := r.S
